@@ -84,3 +84,39 @@ seed('S-c03c', 'C03', 'simplify.rs: rule-set entry indices are shifted by the nu
 seed('S-c10c', 'C10', 'codegen.rs: `re,` rules are run inline on the accepting-transition path without restoring __state = __initial_state',
      'a `re,` rule whose match runs through a loop state and ends in a terminal accepting state, e.g. # [0-9]+ ; ,', ['C10'], [],
      'caught after adding the sugar family (sugar forms on looping regexes, in Init and in another rule set)')
+# ---- round 5 (tried on a private worktree with tools/try_seed_wt.sh while a long run was using /repo) ----
+WT = 'tools/try_seed_wt.sh seeded/%s/patch.diff %s (private worktree of /repo HEAD with VERIF_REPO/VERIF_WORK set; git apply; ./check <id> quick; git checkout -- .)'
+_seed0 = seed
+def seed(id, prop, change, needs, detected_by, missed_by=(), note=''):
+    _seed0(id, prop, change, needs, detected_by, missed_by, note)
+    SEEDS[id]['ran'] = WT % (id, ' '.join(list(detected_by) + list(missed_by)))
+seed('S-c11c', 'C11', 'range_map.rs RangeMap::insert: "append" fast path that compares the new start with last.start instead of last.end',
+     'an insert whose start lies strictly inside the last piece of the map (bracket set with overlapping ranges in increasing order, e.g. [a-m h-z])', ['C11'], [],
+     'inductive step for insert: the solver returns a two-piece pre-state and a range starting inside the last piece; replayed natively')
+seed('S-c08c', 'C08', 'codegen.rs generate_state: the inline failure branch omits `__initial_state = 0` for states it takes to be in Init (off-by-one on the first state of the next rule set)',
+     'a failure in the entry state of the rule set that directly follows Init, then a lexeme from Init whose action continues or returns: the lexer falls back to the old rule set', ['C08'], [],
+     'post-state compare of __initial_state after the failing call')
+seed('S-c01c', 'C01', 'dfa/backtrack.rs update_backtracks: a re-visited state is upgraded but its successors are not walked again',
+     'a join or cycle entered first without and later with an earlier accepting state, and the scan dies behind it: InvalidToken instead of the rewind to the shorter match', ['C01'], [],
+     'rewind-biased family (joins behind optional prefixes)')
+seed('S-c05c', 'C05', 'dfa.rs State::has_no_transitions ignores the end-of-input transition, so simplify() removes `$`-only states',
+     'rules R and R $ together (preference lost) or only R $ (matches although input remains)', ['C05'], [],
+     'the `$`-variants of the end-of-input family')
+seed('S-c02c', 'C02', 'regex_to_nfa.rs ZeroOrMore: the incoming state is reused as loop head',
+     'a `*` group whose body begins with another `*`: (x* y)* is compiled as (x* y)* x*', ['C02'], [],
+     'first run missed it (no nested repetition whose body starts with a repetition in the bounded-exhaustive tree). Added the nested repetition family and the attribution of C02-tagged definitions to C02')
+seed('S-c04c', 'C04', 'right_ctx.rs: right-context automata cached by the unresolved context AST (ast.rs derives Eq/Hash)',
+     'two rule sets that bind the same `let` name to different regexes and use it as a right context', ['C04'], [],
+     'first run missed it (no rule-set-local lets). Definitions can now carry `let` bindings inside rule sets (local_let_family)')
+seed('S-c18b', 'C18', 'char_range_gen: scan loop `0..max` instead of `0..=max`',
+     'a predicate that changes its value between U+10FFFE and U+10FFFF', ['C18'], [],
+     'first run was inconclusive (the loop-head cut only understood RangeInclusive loops); Range loops are now cut the same way; the exit condition yields the counterexample predicate, replayed natively')
+seed('S-c14b', 'C14', 'lexgen_util Lexer::new_with_state skips a leading U+FEFF (iterator constructors do not)',
+     'input whose first character is U+FEFF', ['C14'], [],
+     'first run was inconclusive: the constructor now branches (multi-path constructor states) and uses str::starts_with / Option combinators / str slicing; summaries added, every pair of constructor paths is compared')
+seed('S-c15b', 'C15', 'generated binary_search consults a thread_local "last matching range" cache shared by all tables and lexer instances',
+     'a lexer with two different binary-search tables (or two lexers) and calls interleaved between a clone and its original', ['C15'], [],
+     'structural equality of the clone cannot see state outside the value: added a model of thread_local Cell and the behavioural comparison same_stream (original and clone driven alternately from the same symbolic tail, the clone replaying the decisions of the original), and two-table definitions in the C15 family')
+seed('S-c13b', 'C13', 'search_table.rs: tables identified by (len, first range, last range)',
+     'one lexer with two different >9-range tables that agree in length, first and last range (a class in a loop whose initial state is trimmed by another rule)', ['C13'], [],
+     'first run missed it twice: no such pair of tables in the family (added bi_tt0..11), then the lexer part of C13 only ran one character per call, so the loop state was never compared (bound raised to 2 characters, 1 kept for the five biggest tables)')
